@@ -5,3 +5,5 @@ import "github.com/corazawaf/coraza/v3/verifharness/vf"
 func init() { Registry["XSCALEMD"] = func(run *vf.Run) { scaleMatchData(run, "dev") } }
 
 func init() { Registry["XDEEP"] = c07Deep }
+
+func init() { Registry["XINC"] = c16IncludeContext }
